@@ -36,7 +36,21 @@ var errInjectedNotSupported = fmt.Errorf("injected: %w", http.ErrNotSupported)
 type c16Result struct {
 	Rets []error
 	Core *mon.CoreRW
+	// Body and Log as they were when the script ended (before the carry-on step)
+	Body string
+	Log  []mon.RWLog
+	// carry-on: after a failed call the handler sends one more message on the same session
+	Carried       bool
+	CarryRet      error
+	CarryAppended string
 }
+
+const c16CarryEnc = "data: after-the-failure\n\n"
+
+// c16ReqCtx: 0 = live request context, 1 = already cancelled, 2 = cancelled with a cause of its own
+var c16ReqCtx int
+
+var errC16Cause = errors.New("request ended for a reason of its own")
 
 var c16Err error = errInjectedRW
 
@@ -49,11 +63,35 @@ func c16RunSession(shape string, script []c16Op, failAt, accept int, preCT strin
 	core.FailAt, core.Accept, core.Err = failAt, accept, c16Err
 	w, _ := mon.MakeRW(shape, core)
 	req := httptest.NewRequest(http.MethodGet, "http://verif.invalid/", http.NoBody)
+	switch c16ReqCtx {
+	case 1:
+		ctx, cancel := context.WithCancel(req.Context())
+		cancel()
+		req = req.WithContext(ctx)
+	case 2:
+		ctx, cancel := context.WithCancelCause(req.Context())
+		cancel(errC16Cause)
+		req = req.WithContext(ctx)
+	}
 	sess, err := sse.Upgrade(w, req)
 	res.Core = core
 	if err != nil {
+		res.Body, res.Log = core.Body.String(), append([]mon.RWLog(nil), core.Log...)
 		return res, err
 	}
+	defer func() {
+		res.Body, res.Log = core.Body.String(), append([]mon.RWLog(nil), core.Log...)
+		if n := len(res.Rets); n > 0 && res.Rets[n-1] != nil {
+			// the handler carries on after the failed call (the writer works again)
+			m := &sse.Message{}
+			m.AppendData("after-the-failure")
+			res.Carried = true
+			res.CarryRet = sess.Send(m)
+			if b := core.Body.String(); len(b) >= len(res.Body) {
+				res.CarryAppended = b[len(res.Body):]
+			}
+		}
+	}()
 	for _, op := range script {
 		var e error
 		if op.Kind == "send" {
@@ -71,7 +109,10 @@ func c16RunSession(shape string, script []c16Op, failAt, accept int, preCT strin
 
 // c16Judge checks one execution.
 func c16Judge(shape string, script []c16Op, res c16Result, failAt int) (out []jv) {
-	log := res.Core.Log
+	log := res.Log
+	if res.Carried && res.CarryRet == nil && res.CarryAppended != c16CarryEnc {
+		out = append(out, jvf([]string{"send_after_failed_call_wrong"}, "after a failed call the next Send returned nil but appended %q to the body, want exactly its own encoding %q", fw.Trunc(res.CarryAppended, 200), c16CarryEnc))
+	}
 	// (1) header set and flushed before the first body byte; no header access after a successful upgrade
 	firstWrite := -1
 	for i, l := range log {
@@ -121,7 +162,7 @@ func c16Judge(shape string, script []c16Op, res c16Result, failAt int) (out []jv
 			want.WriteString(script[i].Enc)
 		}
 	}
-	body := res.Core.Body.String()
+	body := res.Body
 	if failedCall >= 0 && script[failedCall].Kind == "send" {
 		if !strings.HasPrefix(body, want.String()) || !strings.HasPrefix(want.String()+script[failedCall].Enc, body) {
 			out = append(out, jvf([]string{"body_wrong"}, "body is not the successful messages plus a prefix of the failing one (len %d)", len(body)))
@@ -241,6 +282,9 @@ func TestC16(t *testing.T) {
 		if rng.IntN(3) == 0 {
 			c16Err = errInjectedNotSupported
 		}
+		// a third of the sessions belong to a request whose context has ended already (the writer's
+		// own errors are still what Send and Flush report)
+		c16ReqCtx = []int{0, 0, 0, 1, 2, 2}[rng.IntN(6)]
 		base, uerr := c16RunSession(shape, script, -1, -1, preCT)
 		r.Eval(fw.Hash(shape, fmt.Sprintf("%+v", script)), len(script) > 1)
 		if uerr != nil {
@@ -274,7 +318,7 @@ func TestC16(t *testing.T) {
 			for _, e := range res.Rets {
 				rets = append(rets, fmt.Sprint(e))
 			}
-			r.Violation(key, tl, map[string]any{"shape": shape, "script": script, "preset_content_type": preCT, "fail_at_op": failAt, "accept": accept, "returns": rets, "writer_log": lg, "findings": msgs}, "C16: %s (+%d more)", fs[0].Msg, len(fs)-1)
+			r.Violation(key, tl, map[string]any{"shape": shape, "script": script, "preset_content_type": preCT, "request_context": c16ReqCtx, "fail_at_op": failAt, "accept": accept, "returns": rets, "writer_log": lg, "findings": msgs}, "C16: %s (+%d more)", fs[0].Msg, len(fs)-1)
 		}
 		report(c16Judge(shape, script, base, -1), -1, -1, base)
 		W := base.Core.Ops()
@@ -502,7 +546,7 @@ func TestC16(t *testing.T) {
 	}
 	// (E) the zero-value Server (its own Joe): a session subscribed through ServeHTTP gets exactly the
 	// messages published to its topics, with the header set before the first byte
-	ne := r.N(60, 600)
+	ne := r.N(160, 1600)
 	for i := 0; i < ne; i++ {
 		if !r.Mine("E", i) {
 			continue
@@ -512,7 +556,8 @@ func TestC16(t *testing.T) {
 		shape := []string{"flusher", "flusherror", "both", "unwrap2-both"}[rng.IntN(4)]
 		withTopics := rng.IntN(2) == 0
 		npub := 1 + rng.IntN(6)
-		r.Begin(key, fmt.Sprintf("zero-value server shape=%s topics=%v pubs=%d", shape, withTopics, npub))
+		withBroken := rng.IntN(2) == 0
+		r.Begin(key, fmt.Sprintf("zero-value server shape=%s topics=%v pubs=%d second_session_breaks=%v", shape, withTopics, npub, withBroken))
 		var want strings.Builder
 		var body string
 		var ctAtFirstWrite string
@@ -527,6 +572,18 @@ func TestC16(t *testing.T) {
 			req := httptest.NewRequest(http.MethodGet, "http://verif.invalid/", http.NoBody)
 			done := make(chan struct{})
 			go func() { defer close(done); srv.ServeHTTP(w, req) }()
+			// a second session on the same Server whose connection breaks in the middle of a write
+			// (a few bytes of it are accepted): what it did not get is nobody else's
+			done2 := make(chan struct{})
+			if withBroken {
+				core2 := mon.NewCoreRW()
+				core2.FailAt, core2.Accept, core2.Err = 2+rng.IntN(8), 1+rng.IntN(3), errInjectedRW
+				w2, _ := mon.MakeRW(shape, core2)
+				req2 := httptest.NewRequest(http.MethodGet, "http://verif.invalid/", http.NoBody)
+				go func() { defer close(done2); srv.ServeHTTP(w2, req2) }()
+			} else {
+				close(done2)
+			}
 			synctest.Wait()
 			for k := 0; k < npub; k++ {
 				m := &sse.Message{}
@@ -550,6 +607,7 @@ func TestC16(t *testing.T) {
 			}
 			srv.Shutdown(context.Background())
 			<-done
+			<-done2
 			body = core.Body.String()
 			for _, l := range core.Log {
 				if l.Op == "write" {
@@ -566,7 +624,7 @@ func TestC16(t *testing.T) {
 			}
 		}
 		if body != want.String() {
-			r.Violation(key, []string{"body_not_concatenation"}, map[string]any{"shape": shape, "on_session_topics": withTopics, "got": fw.Q(body), "want": fw.Q(want.String())}, "C16: zero-value Server: the session's body is not the concatenation of the messages published to its topics")
+			r.Violation(key, []string{"body_not_concatenation"}, map[string]any{"shape": shape, "on_session_topics": withTopics, "second_session_breaks": withBroken, "got": fw.Q(body), "want": fw.Q(want.String())}, "C16: zero-value Server: the session's body is not the concatenation of the messages published to its topics")
 		}
 		if body != "" && ctAtFirstWrite != "text/event-stream" {
 			r.Violation(key, []string{"content_type_not_set_before_first_byte"}, map[string]any{"shape": shape, "content_type": ctAtFirstWrite}, "C16: zero-value Server: Content-Type at the first body write is %q", ctAtFirstWrite)
